@@ -104,9 +104,8 @@ func Recognise(text string) *Recognition {
 		return undecided("invalid UTF-8")
 	}
 	for _, l := range res.Lines {
-		if strings.ContainsRune(l.Text, '\r') {
-			return undecided("carriage return that is not part of a CRLF")
-		}
+		// A carriage return that is not part of a CRLF is an ordinary, non-blank character: fine inside a summary,
+		// "extra text" after a date, a malformed value at the end of an entry. (Only SplitLines gives CR a meaning.)
 		if strings.ContainsRune(l.Text, 0) {
 			return undecided("NUL character")
 		}
